@@ -143,8 +143,8 @@ def run(ck):
     sib = siblings.rule(prog, ck.report, "C02", broken=ck.fail_broken)
     nterm = terminator_rule(prog, ck.report)
     nprobe = precision_rule(prog, ck.report)
-    if nprobe < 3:
-        ck.fail_broken("precision rule: only %d length-probe calls found in the formatter (< 3)" % nprobe)
+    if nprobe < 2:
+        ck.fail_broken("precision rule: only %d length-probe calls found in the formatter (< 2)" % nprobe)
     fx = selftest(ck)
     cov = dict(symmetric_copy_loop_pairs=sib, block_reader_calls_on_string_operands=nterm, formatter_length_probes=nprobe, primitives_by_byte_accounting={k: dict(paths=v.get("paths"), loops=v.get("loops"), iteration_paths=v.get("iteration_paths"), assumed_min_count=v.get("assumed_min_count"), call_sites=v.get("call_sites")) for k, v in prim.items()},
                explanation="%d read obligations over all function definitions: %d discharged, %d outside the reach of the domain in %d functions (listed with reasons, not claimed), "
